@@ -267,6 +267,10 @@ class GriffeLoader:
         seen = seen or set()
         seen.add(module.path)
         if module.exports is None:
+            # Nothing to expand in this module, but its submodules might declare exports.
+            for submodule in module.modules.values():
+                if not submodule.is_alias and submodule.path not in seen:
+                    self.expand_exports(submodule, seen)
             return
 
         expanded = []
